@@ -62,7 +62,7 @@ pub fn run_c30(tier: Tier, seed: u64) -> i32 {
         "for every successfully executed statement of the mixed corpus (projections, expressions of every type, aggregates, joins, set operations, subqueries, CTEs, windows, grouping sets, ORDER BY/LIMIT) over memory and Parquet layouts: QueryResult.schema, the schema of every returned batch and physical_plan(sql).schema() (the source of Flight's schema answers) agree in column count, names and types up to nullability. distinct = distinct (statement skeleton, result type vector) with at least one returned batch",
     );
     let scratch = Scratch::new("c30");
-    let n_dbs = tier.pick(60usize, 1200);
+    let n_dbs = tier.pick(60usize, 600);
     let per_db = tier.pick(40usize, 60);
     let seeds: Vec<u64> = (0..n_dbs).map(|i| seed.wrapping_mul(4_000_037).wrapping_add(i as u64)).collect();
     let sp = scratch.path().to_path_buf();
